@@ -797,7 +797,9 @@ class EvalMixin:
     def dict_store(self, d, k, v):
         """d[k] = v where k may be symbolic: an existing key that EQUALS k keeps its place and gets the new value
         (decided concretely, or by forking the path); otherwise k is a new key."""
-        if not (is_sym(k) or any(is_sym(ek) for ek in d)):
+        def _dg(x):  # a digest value (library identifier): equality is structural on its arguments (sym_eq)
+            return isinstance(x, Opaque) and "$digest_args" in x.attrs
+        if not (is_sym(k) or _dg(k) or any(is_sym(ek) or _dg(ek) for ek in d)):
             d[k] = v
             return
         for ek in list(d):
